@@ -141,8 +141,18 @@ func (x *Exec) evalIdent(name string, env *Env) Val {
 	if sig, ok := e.funSig(name); ok && len(sig.args) == 0 {
 		return Val{T: name, Sort: sig.ret}
 	}
-	if !env.closed {
-		if v, ok := x.lookupName(name, env.atBlock, env.st); ok {
+	if !env.closed && x.fn != nil {
+		if v, ok := x.lookupName(name, env.atBlock, env.st, false); ok {
+			return v
+		}
+	}
+	if x.fn != nil && x.fn.Pkg != nil {
+		if g, ok := x.fn.Pkg.Members[name].(*ssa.Global); ok {
+			return x.globalVal(g)
+		}
+	}
+	if !env.closed && x.fn != nil {
+		if v, ok := x.lookupName(name, env.atBlock, env.st, true); ok {
 			return v
 		}
 	}
